@@ -50,6 +50,9 @@ type VRec struct {
 	Choices  []int  `json:"choices,omitempty"`
 	Case     string `json:"case,omitempty"`
 	Crash    bool   `json:"crash,omitempty"`
+	// Mode "scenario": the violation did not reproduce as a single execution in a fresh process but did when
+	// the whole scenario was re-run in one: it depends on state the library carries between sessions of a process.
+	Mode string `json:"mode,omitempty"`
 }
 
 // SRec is the per-scenario result.
@@ -708,8 +711,13 @@ func replayOnce(tier string, seed int64, idx int, v VRec) (sigs []string, engine
 		defer func() { fmt.Println(p.stderr.String()) }()
 	}
 	b, _ := json.Marshal(v)
-	_, _ = fmt.Fprintf(p.in, "X %d %s\n", idx, b)
 	to := time.After(5 * time.Minute)
+	if v.Mode == "scenario" {
+		_, _ = fmt.Fprintf(p.in, "S %d []\n", idx)
+		to = time.After(15 * time.Minute)
+	} else {
+		_, _ = fmt.Fprintf(p.in, "X %d %s\n", idx, b)
+	}
 	for {
 		select {
 		case l, ok := <-p.lines:
@@ -860,17 +868,46 @@ func Main(t *testing.T, c Check) {
 		reproduced := 0
 		const reruns = 3
 		if !c.NoIsolation && !noConfirm[sig] {
-			for r := 0; r < reruns; r++ {
-				sigs, eng := replayOnce(tier, seed, names[v.Scenario], v)
-				if eng != "" {
-					res.engineErrs = append(res.engineErrs, "replay of "+sig+": "+eng)
-					break
+			// candidates: the first recorded execution, then a few others (other scenarios / cases first)
+			cands := []VRec{vs[0]}
+			seenC := map[string]bool{vs[0].Scenario + "|" + vs[0].Case: true}
+			for _, o := range vs[1:] {
+				if k := o.Scenario + "|" + o.Case; !seenC[k] && len(cands) < 6 {
+					seenC[k] = true
+					cands = append(cands, o)
 				}
-				for _, s := range sigs {
-					if s == sig {
-						reproduced++
+			}
+			try := func(cv VRec, n int) int {
+				got := 0
+				for r := 0; r < n; r++ {
+					sigs, eng := replayOnce(tier, seed, names[cv.Scenario], cv)
+					if eng != "" {
+						res.engineErrs = append(res.engineErrs, "replay of "+sig+": "+eng)
 						break
 					}
+					for _, s := range sigs {
+						if s == sig {
+							got++
+							break
+						}
+					}
+				}
+				return got
+			}
+			for _, cv := range cands {
+				if reproduced = try(cv, reruns); reproduced > 0 {
+					v = cv
+					break
+				}
+			}
+			if reproduced == 0 {
+				// not reproducible as one execution in a fresh process: re-run the whole scenario in one
+				sv := vs[0]
+				sv.Mode = "scenario"
+				if try(sv, 1) > 0 {
+					reproduced = reruns
+					v = sv
+					v.Detail = "(not reproducible as a single session in a fresh process; reproduced by re-running the whole scenario in a fresh process: depends on state carried between sessions of one process) " + v.Detail
 				}
 			}
 			if reproduced == 0 {
